@@ -274,6 +274,19 @@ pub fn check_real_point(p: &Pt, cx: &mut Cx, w: &mut World) {
         (Ok(s), _) => cx.check("query_path.simulation_equals_compute_swap", false, || format!("Simulation gave {:?} but compute_swap failed", s)),
         _ => cx.count("real:sim_and_hook_both_fail"),
     }
+    // no free money: bank coins that are merely spelled like the address of the pool's cw20 asset are not a pool
+    // asset and buy nothing
+    {
+        let amt = p.offer.min(p.ask_pool / 2).max(1);
+        let ub = [info_balance(w, &a0, MALLORY), info_balance(w, &a1, MALLORY)];
+        if let Some(r) = crate::scn_pair::addr_coin_swap(w, &h.pair, MALLORY, 1, amt) {
+            cx.count(if r.is_ok() { "real:addr_coin_offer_accepted" } else { "real:addr_coin_offer_rejected" });
+            let ua = [info_balance(w, &a0, MALLORY), info_balance(w, &a1, MALLORY)];
+            cx.check("no_free_money.proceeds_only_for_pool_assets", ua[0] <= ub[0] && ua[1] <= ub[1], || {
+                format!("a swap offering {} bank coins spelled like the cw20 asset's address (not a pool asset) paid the sender: pool-asset balances {:?} -> {:?}", amt, ub, ua)
+            });
+        }
+    }
     // executed there-and-back
     let bal0 = info_balance(w, &a0, BOB);
     let bal1 = info_balance(w, &a1, BOB);
